@@ -977,6 +977,14 @@ class _FreshPlugin(Plugin):
 
     def assign(self, t, v, d, st):
         val = getattr(st, "value", None)
+        if isinstance(t, ast.Name) and isinstance(
+                val, ast.Constant) and val.value is None and isinstance(
+                    st, ast.Assign):
+            # `cache = None`: a sentinel, computed from nothing; the test
+            # `cache is None` that follows is decided (refine)
+            d[t.id] = "NONE"
+            d["$stale:" + t.id] = frozenset()
+            return
         if isinstance(t, ast.Name):
             deps = set()
             if val is not None:
@@ -1025,6 +1033,15 @@ class _FreshPlugin(Plugin):
 
     def refine(self, test, d):
         self._note_uses(test, d)
+        t, pol = test, True
+        if isinstance(t, ast.UnaryOp) and isinstance(t.op, ast.Not):
+            t, pol = t.operand, False
+        if isinstance(t, ast.Compare) and len(t.ops) == 1 and isinstance(
+                t.ops[0], (ast.Is, ast.IsNot)) and isinstance(
+                    t.left, ast.Name) and U(t.comparators[0]) == "None" \
+                and d.get(t.left.id) == "NONE":
+            is_none = isinstance(t.ops[0], ast.Is) == pol
+            return ([d], []) if is_none else ([], [d])
         return [d], [dict(d)]
 
     def for_target(self, stmt, d):
